@@ -285,7 +285,11 @@ def find_loop(gb, pl):
 
 
 def cbmc_cmd(q, gb, trace=False):
-    cmd = ["cbmc", gb, "--function", q.entry] + CBMC_BASE + q.flags
+    base = list(CBMC_BASE)
+    if "--max-field-sensitivity-array-size" in q.flags and "--max-field-sensitivity-array-size" in base:
+        k = base.index("--max-field-sensitivity-array-size")
+        del base[k:k + 2]
+    cmd = ["cbmc", gb, "--function", q.entry] + base + q.flags
     if q.unwindset:
         cmd += ["--unwindset", ",".join(q.unwindset)]
     if q.unwind is not None:
